@@ -360,3 +360,28 @@ Qed.
 Theorem levels_minimal : forall cl F, acyclic_in cl F -> F <> [] -> forall L,
   incl F (concat L) -> lv_ok (intra_of cl F) [] L -> List.length (fst (split_levels cl F)) <= List.length L.
 Proof. intros cl F [rk Hrk] HF. exact (split_minimal cl F rk Hrk _ (depth_of_is_depth cl F rk Hrk) HF). Qed.
+
+(* ================= the rejected alternative ================= *)
+Lemma rank_by_count_refuted :
+  acyclic_in ex_cl [0; 1; 2; 3] /\
+  fst (split_levels ex_cl [0; 1; 2; 3]) = [[0; 1]; [2; 3]] /\
+  depth_of ex_cl [0; 1; 2; 3] 2 = depth_of ex_cl [0; 1; 2; 3] 3 /\
+  ~ In 2 (intra_of ex_cl [0; 1; 2; 3] 3) /\ ~ In 3 (intra_of ex_cl [0; 1; 2; 3] 2) /\
+  split_by_count ex_cl [0; 1; 2; 3] = [[0; 1]; [2]; [3]] /\
+  lv_ok (intra_of ex_cl [0; 1; 2; 3]) [] (split_by_count ex_cl [0; 1; 2; 3]) /\
+  same_level (split_by_count ex_cl [0; 1; 2; 3]) 2 3 = false /\
+  List.length (fst (split_levels ex_cl [0; 1; 2; 3])) < List.length (split_by_count ex_cl [0; 1; 2; 3]).
+Proof.
+  split.
+  { exists (fun u => u). intros u a Hu Ha.
+    destruct u as [|[|[|[|u]]]]; cbn in Ha; try contradiction; try (destruct Ha as [Ha|Ha]; [subst a; lia|]); try contradiction;
+      try (destruct Ha as [Ha|Ha]; [subst a; lia | contradiction]). }
+  split; [reflexivity|]. split; [reflexivity|].
+  split; [vm_compute; intros [H|H]; [discriminate H | destruct H; [discriminate | contradiction]]|].
+  split; [vm_compute; intros [H|H]; [discriminate H | contradiction]|].
+  split; [reflexivity|].
+  split.
+  { vm_compute. repeat split; intros f Hf a Ha; repeat (destruct Hf as [Hf|Hf]; [subst f|]); try contradiction; cbn in Ha;
+      repeat (destruct Ha as [Ha|Ha]; [subst a; cbn; tauto|]); contradiction. }
+  split; [reflexivity|]. vm_compute. lia.
+Qed.
